@@ -202,12 +202,8 @@ def ast_first_diff(a, b):
                     d = ast_first_diff(p[0], q[0])
                     if d:
                         return d
-                    if (p[1] is None) != (q[1] is None):
-                        return (a, b)
-                    if p[1] is not None:
-                        d = ast_first_diff(p[1], q[1])
-                        if d:
-                            return d
+                    if p[1] != q[1]:
+                        return (a, b)       # the repetition differs: a property of the initialiser
                 else:
                     d = ast_first_diff(p, q)
                     if d:
@@ -230,8 +226,7 @@ def classify_expr_diff(sa, pa):
     ka = a[0] if isinstance(a, tuple) else "?"
     kb = b[0] if isinstance(b, tuple) else "?"
     if ka == "real" and kb == "int":
-        num, den = a[1].split("/")
-        if den == "1" and int(num) == b[1]:
+        if float(a[1]) == b[1]:
             return "real-literal-printed-as-integer" + ("-zero" if b[1] == 0 else "")
         return "real-literal-value-changed"
     if ka == "real" and kb == "real":
